@@ -662,6 +662,9 @@ class GraphBuilder(BuilderBase):
                 return root._constant_cache[cache_key]
             type_suffix = _dtype_suffix(dtype) if dtype is not None else ""
             name = _constant_name(value, type_suffix, len(root._constant_cache))
+            if name in root._graph.initializers:
+                # NaN != NaN: a second NaN object misses the cache but has the name of the first.
+                name = f"{name}_{len(root._constant_cache)}"
             tensor = _make_tensor(value, dtype, name)
             ir_value = root.initializer(tensor, name=name, qualify=False)
             root._constant_cache[cache_key] = ir_value
